@@ -19,6 +19,9 @@ def _jobs(tier):
         jobs.append(dict(sub="reim_to_tnx", count=50 * mult, fix=dict(k=k)))
     # regression probe for D7 (wide variant at x/d = +-pred(1/2)); the general sub generates the value as well
     jobs.append(dict(sub="to_znx64_wide_predhalf", count=300 * mult))
+    # sequences of reim_to_znx64_simple calls (two dimensions, two divisors, both bound classes) on a fresh thread
+    jobs.append(dict(sub="to_znx64_simple_seq", count=6000 * mult, fix=dict(kA=(0, 7), kB=(0, 7))))
+    jobs.append(dict(sub="to_znx64_simple_seq", count=600 * mult, fix=dict(kA=(3, 12), kB=(3, 12))))
     return jobs
 
 
@@ -48,7 +51,7 @@ PLAN = dict(
     fuzz=desc_fuzz("C14", fix=dict(k=(0, 10))),
     required_classes=dict(all=["fn:" + f for f in _FN]
                           + [f + ":m<8" for f in _FN]
-                          + ["cfg:full", "cfg:generic", "divisor==m", "divisor<1", "int32:min/max", "to_znx64:probe:pred(1/2)", "to_znx64:tie->towards-zero", "to_znx64:tie->away-from-zero"]
+                          + ["cfg:full", "cfg:generic", "divisor==m", "divisor<1", "int32:min/max", "to_znx64:probe:pred(1/2)", "to_znx64:tie->towards-zero", "to_znx64:tie->away-from-zero", "to_znx64:simple sequence changes dimension and bound class together"]
                           + ["from_znx64:" + v for v in ("api", "simple", "ref", "bnd50_fma", "sel:ref", "sel:bnd50_fma")]
                           + ["to_znx64:" + v for v in ("api", "simple", "ref", "avx2_bnd50_fma", "avx2_bnd63_fma", "sel:ref",
                                                        "sel:bnd50", "sel:bnd63", "log2bound<=50", "log2bound>50")]
